@@ -22,7 +22,7 @@ CMPS = ["Great", "Less", "Eq", "GreatEq", "LessEq", "NotEq"]
 VAL_NAMES = ["x", "y", "z", "x.0", "x.1", "a.b.c", ".", "", "y.007", "z.+5", "v", "w", "x.2", "y.0"]
 CONST_NAMES = ["K", "C1", "x", "y", "M.0", "z"]
 FN_NAMES = ["f", "g", "h", "main", "f.0", "k"]
-STRUCT_NAMES = ["S", "T", "P.q", "S.0"]
+STRUCT_NAMES = ["S", "T", "P.q", "S.0", "bool", "i32"]
 ATTR_NAMES = ["a", "b", "c", "x", "a.0"]
 F32_BITS = [0, 0x3F800000, 0xC0200000, 0x7F7FFFFF, 0x00000001, 0x80000000, 0x41200000]
 F64_BITS = [0, 0x3FF0000000000000, 0xC004000000000000, 0x7FEFFFFFFFFFFFFF, 1, 0x8000000000000000]
@@ -142,6 +142,25 @@ class Gen:
         cands = [p for p in ["i32", "bool", "u8", "f64", "i64"] if P(p) != t]
         return P(self.rng.choice(cands))
 
+    def other_type(self, t):
+        """A type different from `t` for a type-mismatch fault: usually another primitive; sometimes
+        a LOOKALIKE that prints the same name — an undeclared struct spelled like the primitive, or
+        the same struct name with another attribute list (types are compared structurally, not by
+        name); values of such a type can only come from an extension leaf."""
+        r = self.rng
+        if r.random() < 0.7:
+            return self.other_prim(t)
+        if t[0] == "p":
+            nm = "()" if t[1] == "none" else t[1]
+            if nm == "()":
+                return self.other_prim(t)
+            return ("u", nm, [])
+        if t[0] == "s":
+            attrs = list(self.structs.get(t[1], []))
+            alt = attrs[:-1] if attrs and r.random() < 0.5 else attrs + [("zz", P("u8"))]
+            return ("u", t[1], alt)
+        return self.other_prim(t)
+
     # ------------------------------------------------------------------ scopes
     def lookup(self, name):
         for sc in reversed(self.scopes):
@@ -243,7 +262,7 @@ class Gen:
                 j = self.rng.randrange(len(ps))
                 args = []
                 for i, (_, pt) in enumerate(ps):
-                    args.append(self.expr(self.other_prim(pt) if i == j else pt, depth))
+                    args.append(self.expr(self.other_type(pt) if i == j else pt, depth))
                     if i == j:
                         break   # the first fault must be this argument's type
                 args += [self.expr(pt, 0) for _, pt in ps[j + 1:]]
@@ -338,7 +357,7 @@ class Gen:
                     return out
                 if c == 1:
                     self.injected = {"rule": "R22", "kind": "WrongReturnType"}
-                    out.append(["ret", self.expr(self.other_prim(ret_ty), 1)])
+                    out.append(["ret", self.expr(self.other_type(ret_ty), 1)])
                     return out
                 if c == 2:
                     self.injected = {"rule": "R22", "kind": "ForbiddenCodeAfterReturnDeprecated"}
@@ -395,7 +414,7 @@ class Gen:
                         self.injected = {"rule": "R16", "kind": "ValueIsNotMutable", "name": m}
                         return ["bind", self.ident(m), self.expr(self.lookup(m)[0], 1)]
                     self.injected = {"rule": "R16", "kind": "WrongExpressionType", "name": n}
-                    return ["bind", self.ident(n), self.expr(self.other_prim(t), 1)]
+                    return ["bind", self.ident(n), self.expr(self.other_type(t), 1)]
                 return ["bind", self.ident(n), self.expr(t, 2)]
         if k == "call":
             if not self.fns:
@@ -406,12 +425,17 @@ class Gen:
             t = self.pick_type()
             name = r.choice(VAL_NAMES[: 4 + int(10 * r.random())])
             mut = r.randrange(2)
+            if r.random() < 0.05:
+                # an extension leaf may return ANY type (C19: used verbatim): an array, a struct
+                # nobody declared, a lookalike of a primitive; nothing checks that it exists
+                t = r.choice([("a", P("u8"), 4), ("u", "Nowhere", [("a", P("i32"))]), ("u", "bool", []),
+                              ("a", ("u", "Nowhere", []), 0)])
             e = self.expr(t, 2)
             ann = ["noty"]
             if r.random() < 0.3:
                 ann = ["ty", self.ty(t)]
             if self.site("R15"):
-                ann = ["ty", self.ty(self.other_prim(t))]
+                ann = ["ty", self.ty(self.other_type(t))]
                 self.injected = {"rule": "R15", "kind": "WrongLetType", "name": name}
             s = ["let", self.ident(name), mut, ann, e]
             self.scopes[-1][name] = (t, bool(mut))
@@ -485,7 +509,14 @@ class Gen:
             val = self.const_value(list(self.const_order))
             if self.site("R5"):
                 self.injected = {"rule": "R5", "kind": "ConstantNotFound", "name": "NOCONST"}
-                val = ["cexpr", ["cval", self.lit("i32")], ["Plus", ["cconst", self.ident("NOCONST")]]]
+                earlier = list(self.const_order)
+                val = ["cexpr", ["cval", self.lit("i32")]]
+                for _ in range(r.choice([0, 0, 1, 2, 3])):
+                    val.append([r.choice(OPS), ["cconst", self.ident(r.choice(earlier))] if earlier and r.random() < 0.8
+                                else ["cval", self.lit("i32")]])
+                val.append([r.choice(OPS), ["cconst", self.ident("NOCONST")]])
+                for _ in range(r.choice([0, 0, 1])):
+                    val.append([r.choice(OPS), ["cval", self.lit("i32")]])
             tsx = self.ty(t)
             if self.site("R6c"):
                 self.injected = {"rule": "R6", "kind": "TypeNotFound", "name": name}
@@ -499,9 +530,19 @@ class Gen:
         # function signatures
         sigs = []
         for name in r.sample(FN_NAMES, r.choice([1, 1, 2, 2, 3, 4])):
+            owner = None
+            if self.struct_order and r.random() < 0.12:
+                # `Type.method`-style names are ordinary identifiers; such a function usually takes a
+                # value of that type and reads its fields
+                owner = r.choice(self.struct_order)
+                name = owner + "." + name
             np_ = r.choice([0, 1, 1, 2, 3])
+            if owner:
+                np_ = max(1, np_)
             pnames = r.sample(VAL_NAMES, np_)
             params = [(pn, self.pick_type()) for pn in pnames]
+            if owner:
+                params[0] = (params[0][0], S(owner))
             rt = self.pick_type()
             self.fns[name] = (params, rt)
             self.fn_order.append(name)
